@@ -1,7 +1,7 @@
 SPECIFICATION Spec
 CONSTANTS
- Cases <- MCCases
- MaxFail = 2
+ Cases <- MCDeep
+ MaxFail = 1
  DevItpBeforeLinks = FALSE
  DevGroBlockOrder = FALSE
  DevGateSkipped = FALSE
